@@ -420,9 +420,9 @@ func (s *sched) wait() int {
 }
 
 // RunScheduled runs the client functions as goroutines that execute one file operation per
-// turn; schedule[i] picks, among the clients still alive (in index order), number
-// schedule[i] mod (number alive).  When the schedule is exhausted the remaining clients run
-// round robin.  It returns the sequence of clients actually chosen.
+// turn; schedule[i] names client schedule[i] mod n (an entry naming a client that has finished
+// is skipped).  When the schedule is exhausted the remaining clients run round robin.  It
+// returns the sequence of clients actually chosen.
 func RunScheduled(clients []func(), schedule []int) ([]int, error) {
 	n := len(clients)
 	s := &sched{byGo: map[uint64]int{}, grant: make([]chan struct{}, n), yield: make(chan int), done: make(chan int),
@@ -471,6 +471,7 @@ func RunScheduled(clients []func(), schedule []int) ([]int, error) {
 		return nil, err
 	}
 	var chosen []int
+	rr := 0
 	for step := 0; ; step++ {
 		var live []int
 		for i := 0; i < n; i++ {
@@ -481,14 +482,20 @@ func RunScheduled(clients []func(), schedule []int) ([]int, error) {
 		if len(live) == 0 {
 			return chosen, nil
 		}
-		pick := step
+		var c int
 		if step < len(schedule) {
-			pick = schedule[step]
+			pick := schedule[step]
+			if pick < 0 {
+				pick = -pick
+			}
+			c = pick % n
+			if !s.alive[c] {
+				continue
+			}
+		} else {
+			c = live[rr%len(live)]
+			rr++
 		}
-		if pick < 0 {
-			pick = -pick
-		}
-		c := live[pick%len(live)]
 		chosen = append(chosen, c)
 		s.parked[c] = false
 		s.grant[c] <- struct{}{}
